@@ -97,3 +97,29 @@ Lemma returning_other_object_is_rejected :
   | _ => False
   end.
 Proof. vm_compute. exact I. Qed.
+
+(* ---- (4) product-space operators whose in-place mode relies on set_zero (C03/PModel.v) ---- *)
+From Verif Require Import C03.PModel.
+Definition parts_after (r : @outcome QV (list nat)) : option (list (list QV)) :=
+  match r with
+  | Ok l s => Some (map (fun i => match rd s i with Some (_, d) => d | None => [] end) l)
+  | Err _ _ => None
+  end.
+(* ComponentProjectionAdjoint(rn(3)^2, 0)(x, out=y) with NaN-filled y: the other component keeps its NaN *)
+Lemma cpadj_old_out_survives :
+  match small_guarded with SvUnguarded => False | _ => True end \/
+  (match cpadj_ip 0 0%nat [1%nat; 2%nat] [(sp3, q3 1 2 3); (sp3, nan3); (sp3, nan3)] with
+   | Ok _ s => parts_after (Ok [1%nat; 2%nat] s) = Some [q3 1 2 3; nan3]
+   | Err _ _ => False
+   end
+   /\ parts_after (cpadj_oop 0 [sp3; sp3] 0%nat [(sp3, q3 1 2 3)]) = Some [q3 1 2 3; q3 0 0 0]).
+Proof. vm_compute. first [left; exact I | right; split; reflexivity]. Qed.
+(* ProductSpaceOperator([[2I, None], [None, None]])(x, out=y): the row without operator keeps the NaN of y *)
+Lemma pso_zero_row_old_out_survives :
+  let ents := [{| en_row := 0; en_col := 0; en_op := scal3 2 |}] in
+  match small_guarded with SvUnguarded => False | _ => True end \/
+  (parts_after (pso_call junkQ ents [sp3; sp3] [sp3; sp3] [0%nat; 1%nat] (Some [2%nat; 3%nat])
+                  [(sp3, q3 1 2 3); (sp3, q3 4 5 6); (sp3, nan3); (sp3, nan3)]) = Some [q3 2 4 6; nan3]
+   /\ parts_after (pso_call junkQ ents [sp3; sp3] [sp3; sp3] [0%nat; 1%nat] None
+                  [(sp3, q3 1 2 3); (sp3, q3 4 5 6)]) = Some [q3 2 4 6; q3 0 0 0]).
+Proof. vm_compute. first [left; exact I | right; split; reflexivity]. Qed.
